@@ -18,7 +18,7 @@ def gen_scenario(rng, big=False):
     kinds = []
     servers_udp, servers_tcp = [], []
     for i in range(n):
-        k = rng.choice(["udp_echo", "udp_client", "tcp_server", "tcp_client", "spawner", "racer", "fs", "fs", "uring"])
+        k = rng.choice(["udp_echo", "udp_client", "tcp_server", "tcp_client", "spawner", "racer", "fs", "fs", "uring", "finisher"])
         kinds.append(k)
         if k == "udp_echo":
             servers_udp.append(i)
@@ -45,6 +45,8 @@ def gen_scenario(rng, big=False):
             h.update({"leave_after": rng.choice([1000, 1000, 2, 4])})
         elif k == "racer":
             h.update({"lanes": 3, "rounds": rng.randrange(6, 20)})
+        elif k == "finisher":
+            h.update({"linger_ms": rng.choice([0, 0, 1, 5, 20])})
         elif k == "fs":
             h.update({"files": rng.randrange(2, 7), "rounds": rng.randrange(2, 4)})
         elif k == "uring":
@@ -79,6 +81,31 @@ def gen_scenario(rng, big=False):
                 if rng.random() < 0.5:
                     ctl.setdefault(str(min(nsteps - 1, k2 + rng.randrange(1, 6))), []).append(["release", a, b])
     return {"cfg": cfg, "nsteps": nsteps, "hosts": hosts, "ctl": ctl}
+
+
+def finisher_scenarios():
+    """Deterministic family: a host whose software has returned (leaving background tasks) is crashed /
+    bounced several steps later, alone and next to a running host; destructors and the restarted factory
+    read the host clocks between two steps."""
+    out = []
+    for tick_us, linger, at, how in [(2000, 0, 3, "bounce"), (1000, 5, 12, "bounce"), (1000, 0, 6, "crash"),
+                                     (3000, 1, 4, "bounce_re"), (1000, 20, 10, "bounce")]:
+        cfg = {"seed": 7 + at, "tick_us": tick_us, "min_ms": 0, "max_ms": 2, "curve": 5.0, "fail": 0.0, "repair": 1.0,
+               "random_order": at % 2 == 0, "tcp_cap": 64, "udp_cap": 64, "ipv6": False, "epoch_s": 1700000000,
+               "fs": {"sync_p": 0.0, "err_p": 0.0, "short_p": 0.0, "lat_ms": None, "block": None}}
+        hosts = [{"kind": "finisher", "salt": 1, "linger_ms": linger}, {"kind": "spawner", "salt": 5, "tasks": 3}]
+        ctl = {}
+        if how == "bounce":
+            ctl[str(at)] = [["bounce", 0]]
+            ctl[str(at + 3)] = [["bounce", 0], ["bounce", 1]]
+        elif how == "crash":
+            ctl[str(at)] = [["crash", 0]]
+            ctl[str(at + 4)] = [["bounce", 0]]
+        else:
+            ctl[str(at)] = [["bounce_re", "^n"]]
+        out.append({"cfg": cfg, "nsteps": at + 12, "hosts": hosts, "ctl": ctl, "flavour": "finisher",
+                    "wall_sleep_us": 3000, "wall_lead_cap_us": 60000})
+    return out
 
 
 def gen_netfix(rng):
